@@ -3,13 +3,13 @@ import TsVerif.C05.Model
 # C05 — parser for the generated subset of the query language (driver only)
 
 `parseQuery text` returns the top-level patterns as `Item`s, or `none` when the text uses
-something outside the modelled subset (quantified / captured / top-level groups, supertypes, predicates, anchored quantified
+something outside the modelled subset (quantified / captured / top-level groups, predicates, anchored quantified
 items, quantified roots): such cases are counted as *unsupported* by the check, never compared.
 -/
 namespace TsVerif.C05
 
 inductive Tok where
-  | lp | rp | lb | rb | dot | bang | colon | under
+  | lp | rp | lb | rb | dot | bang | colon | under | slash
   | ident (s : String)
   | str (s : String)
   | cap (s : String)
@@ -45,6 +45,7 @@ def tokenize (fuel : Nat) (cs : List Char) (acc : Array Tok) : Array Tok :=
       else if c == ']' then tokenize fuel rest (acc.push .rb)
       else if c == '!' then tokenize fuel rest (acc.push .bang)
       else if c == ':' then tokenize fuel rest (acc.push .colon)
+      else if c == '/' then tokenize fuel rest (acc.push .slash)
       else if c == '+' then tokenize fuel rest (acc.push (.quant .plus))
       else if c == '*' then tokenize fuel rest (acc.push (.quant .star))
       else if c == '?' then tokenize fuel rest (acc.push (.quant .opt))
@@ -74,14 +75,14 @@ def isWildAny : Item → Bool
 
 mutual
   /-- item := [ident ':'] core [quant] cap* ; `imm` = a '.' preceded it. -/
-  def parseItem (fuel : Nat) (imm : Anchor) (ts : List Tok) : Option (Item × List Tok) :=
+  def parseItem (sups : List String) (fuel : Nat) (imm : Anchor) (ts : List Tok) : Option (Item × List Tok) :=
     match fuel with
     | 0 => none
     | fuel + 1 =>
       let (field, ts) := match ts with
         | .ident f :: .colon :: rest => (some f, rest)
         | _ => (none, ts)
-      match parseCore fuel ts with
+      match parseCore sups fuel ts with
       | none => none
       | some (p, ts) =>
         let (q, ts) := match ts with
@@ -89,22 +90,25 @@ mutual
           | _ => (Quant.one, ts)
         let (caps, ts) := takeCaps ts []
         if imm != .none && q != .one then none else some (.mk imm field p q caps, ts)
-  def parseCore (fuel : Nat) (ts : List Tok) : Option (Pat × List Tok) :=
+  def parseCore (sups : List String) (fuel : Nat) (ts : List Tok) : Option (Pat × List Tok) :=
     match fuel with
     | 0 => none
     | fuel + 1 =>
       match ts with
       | .str s :: rest => some (.node (.kind s false) [] [] false, rest)
       | .under :: rest => some (.node .wildAny [] [] false, rest)
-      | .lb :: rest => parseAlts fuel rest #[]
+      | .lb :: rest => parseAlts sups fuel rest #[]
       | .lp :: .ident "MISSING" :: .rp :: rest => some (.node .missingAny [] [] false, rest)
       | .lp :: .ident "MISSING" :: .ident k :: .rp :: rest => some (.node (.missingKind k true) [] [] false, rest)
       | .lp :: .ident "MISSING" :: .str k :: .rp :: rest => some (.node (.missingKind k false) [] [] false, rest)
-      | .lp :: .ident "ERROR" :: rest => parseKids fuel .error rest {}
-      | .lp :: .ident k :: rest => parseKids fuel (.kind k true) rest {}
-      | .lp :: .under :: rest => parseKids fuel .wildNamed rest {}
+      | .lp :: .ident "ERROR" :: rest => parseKids sups fuel .error rest {}
+      | .lp :: .ident k :: .slash :: .ident sub :: rest => parseKids sups fuel (.super k (some (sub, true))) rest {}
+      | .lp :: .ident k :: .slash :: .str sub :: rest => parseKids sups fuel (.super k (some (sub, false))) rest {}
+      | .lp :: .ident k :: rest =>
+        parseKids sups fuel (if sups.contains k then .super k none else .kind k true) rest {}
+      | .lp :: .under :: rest => parseKids sups fuel .wildNamed rest {}
       | _ => none
-  def parseKids (fuel : Nat) (t : NodeTest) (ts : List Tok) (acc : KidsAcc) : Option (Pat × List Tok) :=
+  def parseKids (sups : List String) (fuel : Nat) (t : NodeTest) (ts : List Tok) (acc : KidsAcc) : Option (Pat × List Tok) :=
     match fuel with
     | 0 => none
     | fuel + 1 =>
@@ -116,51 +120,50 @@ mutual
           match rest with
           | .quant _ :: _ => none
           | .cap _ :: _ => none
-          | .dot :: _ => none      -- an anchor next to a group: the implementation decides differently; outside the fragment
-          | _ => if acc.dot then none else parseKids fuel t rest { acc with group := acc.group - 1 }
+          | _ => if acc.dot then none else parseKids sups fuel t rest { acc with group := acc.group - 1 }
         else
         some (.node t acc.neg acc.items.toList (acc.dot && !acc.items.isEmpty), rest)
-      | .dot :: rest => if acc.dot then none else parseKids fuel t rest { acc with dot := true }
+      | .dot :: rest => if acc.dot then none else parseKids sups fuel t rest { acc with dot := true }
       | .bang :: .ident f :: rest =>
-        if acc.dot then none else parseKids fuel t rest { acc with neg := acc.neg ++ [f] }
+        if acc.dot then none else parseKids sups fuel t rest { acc with neg := acc.neg ++ [f] }
       | .lp :: .rp :: _ => none
-      | .lp :: .lp :: rest => if acc.dot then none else parseKids fuel t (.lp :: rest) { acc with group := acc.group + 1 }
-      | .lp :: .lb :: rest => if acc.dot then none else parseKids fuel t (.lb :: rest) { acc with group := acc.group + 1 }
-      | .lp :: .str x :: rest => if acc.dot then none else parseKids fuel t (.str x :: rest) { acc with group := acc.group + 1 }
+      | .lp :: .lp :: rest => parseKids sups fuel t (.lp :: rest) { acc with group := acc.group + 1 }
+      | .lp :: .lb :: rest => parseKids sups fuel t (.lb :: rest) { acc with group := acc.group + 1 }
+      | .lp :: .str x :: rest => parseKids sups fuel t (.str x :: rest) { acc with group := acc.group + 1 }
       | _ =>
         let a : Anchor := if acc.dot then (if acc.prevWild then .strict else .loose) else .none
-        match parseItem fuel a ts with
+        match parseItem sups fuel a ts with
         | none => none
         | some (it, rest) =>
-          parseKids fuel t rest { acc with items := acc.items.push it, dot := false, prevWild := isWildAny it }
-  def parseAlts (fuel : Nat) (ts : List Tok) (acc : Array Item) : Option (Pat × List Tok) :=
+          parseKids sups fuel t rest { acc with items := acc.items.push it, dot := false, prevWild := isWildAny it }
+  def parseAlts (sups : List String) (fuel : Nat) (ts : List Tok) (acc : Array Item) : Option (Pat × List Tok) :=
     match fuel with
     | 0 => none
     | fuel + 1 =>
       match ts with
       | .rb :: rest => if acc.isEmpty then none else some (.alt acc.toList, rest)
       | _ =>
-        match parseItem fuel .none ts with
+        match parseItem sups fuel .none ts with
         | none => none
-        | some (it, rest) => if it.quant != .one then none else parseAlts fuel rest (acc.push it)
+        | some (it, rest) => if it.quant != .one then none else parseAlts sups fuel rest (acc.push it)
 end
 
-def parseTop (fuel : Nat) (ts : List Tok) (acc : Array Item) : Option (List Item) :=
+def parseTop (sups : List String) (fuel : Nat) (ts : List Tok) (acc : Array Item) : Option (List Item) :=
   match fuel with
   | 0 => none
   | fuel + 1 =>
     match ts with
     | [] => some acc.toList
     | _ =>
-      match parseItem (ts.length + 2) .none ts with
+      match parseItem sups (ts.length + 2) .none ts with
       | none => none
       | some (it, rest) =>
         match it with
-        | .mk _ f _ q _ => if q != .one || f.isSome then none else parseTop fuel rest (acc.push it)
+        | .mk _ f _ q _ => if q != .one || f.isSome then none else parseTop sups fuel rest (acc.push it)
 
-def parseQuery (text : String) : Option (List Item) :=
+def parseQuery (text : String) (sups : List String := []) : Option (List Item) :=
   let toks := (tokenize (text.length + 1) text.toList #[]).toList
-  if toks.contains .bad then none else parseTop (toks.length + 1) toks #[]
+  if toks.contains .bad then none else parseTop sups (toks.length + 1) toks #[]
 
 mutual
   def Pat.hasQuant : Pat → Bool
